@@ -5,6 +5,7 @@ import (
 	"strings"
 	"testing"
 
+	biscuit "github.com/biscuit-auth/biscuit-go/v2"
 	"pgregory.net/rapid"
 
 	"verif/internal/bridge"
@@ -12,6 +13,7 @@ import (
 	"verif/internal/harness"
 	m "verif/internal/model"
 	"verif/internal/obs"
+	"verif/internal/wire"
 )
 
 // C13 — Reset gives a clean authorizer: nothing leaks from one request into the next.
@@ -20,6 +22,7 @@ type C13Round struct {
 	Authz   m.Authz  `json:"authz"`
 	Action  string   `json:"action"` // authorize | query | both
 	Queries []m.Rule `json:"queries"`
+	Via     string   `json:"via,omitempty"` // "" = Add* calls; "load" = LoadPolicies of a snapshot of this content
 }
 
 type C13Case struct {
@@ -72,14 +75,46 @@ func checkC13(c C13Case, rec *obs.Recorder) *obs.Violation {
 	var prev *C13Round
 	var hist []string
 	sensitive := false
+	// deliver gives a round's content to an authorizer, through Add* calls or through LoadPolicies
+	// of a snapshot taken from a third, throw-away authorizer; returns the authorizer's own
+	// unevaluated snapshot, independently decoded (what it would hand to another service)
+	deliver := func(a biscuit.Authorizer, r C13Round) (string, error) {
+		if r.Via == "load" {
+			src, err := newAuthz(b, pub, r.Authz)
+			if err != nil {
+				return "", err
+			}
+			data, err := src.SerializePolicies()
+			if err != nil {
+				return "", fmt.Errorf("SerializePolicies of the round's content: %w", err)
+			}
+			if err := a.LoadPolicies(data); err != nil {
+				return "", fmt.Errorf("LoadPolicies: %w", err)
+			}
+		} else {
+			bridge.AddAuthz(a, r.Authz)
+		}
+		data, err := a.SerializePolicies()
+		if err != nil {
+			return "", fmt.Errorf("SerializePolicies: %w", err)
+		}
+		return wire.SnapshotKey(data)
+	}
 	for i, r := range c.Rounds {
-		bridge.AddAuthz(reused, r.Authz)
+		snapGot, errGot := deliver(reused, r)
 		got := act(reused, r, func(q m.Rule) string { return queryKey(reused, q) })
 		reused.Reset()
 
-		fresh, err := newAuthz(b, pub, r.Authz)
+		fresh, err := newAuthz(b, pub, m.Authz{})
 		if err != nil {
 			return obs.Violf("fresh authorizer: %v", err)
+		}
+		snapWant, errWant := deliver(fresh, r)
+		if errWant != nil {
+			return obs.Violf("token %s; round %d {%s} via %q: a fresh authorizer cannot take the content: %v", c.Token.Text(), i+1, r.Authz.Text(), r.Via, errWant)
+		}
+		if errGot != nil || snapGot != snapWant {
+			return obs.ViolK("reset-leak", "token %s; history: %s; round %d {%s} delivered via %q: the reused authorizer's unevaluated snapshot differs from a fresh authorizer's (err=%v):\n  reused: %s\n  fresh:  %s", c.Token.Text(), strings.Join(hist, " | "), i+1, r.Authz.Text(), r.Via, errGot, snapGot, snapWant)
 		}
 		want := act(fresh, r, func(q m.Rule) string { return queryKey(fresh, q) })
 		hist = append(hist, fmt.Sprintf("round %d %s {%s} -> %s", i+1, r.Action, r.Authz.Text(), want.class))
@@ -153,6 +188,9 @@ func drawC13(t *rapid.T) C13Case {
 			}
 		}
 		r := C13Round{Authz: cur, Action: rapid.SampledFrom([]string{"authorize", "authorize", "both", "query"}).Draw(t, "action")}
+		if rapid.IntRange(0, 2).Draw(t, "via") == 2 {
+			r.Via = "load"
+		}
 		closure := gen.AuthClosure(sc.Token, cur)
 		for k := 0; k < 2; k++ {
 			r.Queries = append(r.Queries, sc.Schema.DrawPanelQuery(t, closure))
